@@ -147,7 +147,7 @@ def run_2d(ctx, counts, undecided, instances):
                                               timeout=3400, xmx="6g"))
         metas.append(ch)
     leaves = 0
-    for ch, res in zip(metas, run_batches(jobs)):
+    for ch, res in zip(metas, run_batches(jobs, max_workers=10)):      # (10 JVMs with 6 GB heaps at a time: leaves room on a 62 GB machine)
         vs = [v[0] for v in tagged_values(res.out, "BOX2D")]
         if not res.ok or len(vs) != len(ch):
             raise TLCError("BoxCert2D produced %d of %d verdicts:\n%s" % (len(vs), len(ch), res.out[-2500:]))
